@@ -125,6 +125,10 @@ func New(config ...Config) fiber.Handler {
 
 		// Get entry from pool
 		e := manager.get(key)
+		if e != nil && e.exp == 0 {
+			// nothing is stored under this key (an external storage hands out an empty item)
+			e = nil
+		}
 
 		// Lock entry
 		mux.Lock()
